@@ -1173,6 +1173,8 @@ class Flow:
             return {INT: None}
         if name in ('isinstance', 'hasattr', 'callable', 'bool', 'any', 'all', 'issubclass'):
             return {BOOL: None}
+        if name == 'object' and not e.args:
+            return {('sentinel', self.site(f, e, 'object')): None}     # a bare object(): no attributes, no content
         if name in ('id', 'hash'):
             return {('ambient', name): None}
         if name == 'range':
